@@ -58,7 +58,7 @@ func (p *ProxyStore) pre(name string, write bool, req fosite.Requester, keys ...
 	c := &Call{Idx: p.calls, Name: name, Keys: keys, Write: write}
 	p.calls++
 	if req != nil && !isNilReq(req) {
-		c.ReqID = req.GetID()
+		c.ReqID = peekID(req) // never GetID(): it assigns an id lazily, i.e. writes to the object under observation
 		c.Form = cloneValues(req.GetRequestForm())
 	}
 	var err error
@@ -626,12 +626,29 @@ func (n *Namer) Name(kind, s string) string {
 }
 func (n *Namer) Lookup(s string) (string, bool) { v, ok := n.names[s]; return v, ok }
 
+// peekID reads a request's id without the lazy assignment GetID() performs.
+func peekID(r fosite.Requester) string {
+	v := reflect.ValueOf(r)
+	for v.Kind() == reflect.Ptr || v.Kind() == reflect.Interface {
+		if v.IsNil() {
+			return ""
+		}
+		v = v.Elem()
+	}
+	if v.Kind() == reflect.Struct {
+		if f := v.FieldByName("ID"); f.IsValid() && f.Kind() == reflect.String {
+			return f.String()
+		}
+	}
+	return r.GetID()
+}
+
 func renderReq(nm *Namer, r fosite.Requester, epoch time.Time) string {
 	if r == nil || isNilReq(r) {
 		return "<nil>"
 	}
 	var sb strings.Builder
-	fmt.Fprintf(&sb, "id=%s client=%s", nm.Name("rid", r.GetID()), clientID(r))
+	fmt.Fprintf(&sb, "id=%s client=%s", nm.Name("rid", peekID(r)), clientID(r))
 	fmt.Fprintf(&sb, " rs=%v gs=%v ra=%v ga=%v", []string(r.GetRequestedScopes()), []string(r.GetGrantedScopes()), []string(r.GetRequestedAudience()), []string(r.GetGrantedAudience()))
 	fmt.Fprintf(&sb, " at=%d", int64(r.GetRequestedAt().Sub(epoch)/time.Second))
 	if s := r.GetSession(); s != nil && !reflect.ValueOf(s).IsNil() {
